@@ -1,6 +1,7 @@
 import AmiscModel.Index
 import AmiscModel.Interp
 import AmiscModel.Store
+import AmiscModel.Sys
 import AmiscModel.Generated.Transforms
 import AmiscModel.Generated.Consts
 import AmiscModel.Generated.Facts
